@@ -264,7 +264,7 @@ func gen(r *hv.Rng, i int, tier string) (string, hv.Val) {
 		case 0:
 			w[j] ^= byte(1 << uint(r.Intn(8)))
 		case 1:
-			w[j] = "\r\n0 ;fF"[r.Intn(8)]
+			w[j] = "\r\n0 ;fF"[r.Intn(7)]
 		default:
 			w = append(w[:j], w[j+1:]...)
 		}
